@@ -156,5 +156,113 @@ def matcher_matches():
     )
 
 
+# ----------------------------------------------------------------------------------------------- CsvPath.next
+CF["Record"] = {"g_len": "int", "g_verdict": "bool", "g_stops": "bool"}
+CF["CsvPath"].update({"g_records": "objlist[Record]", "g_yielded": "list[int]", "g_will_run": "bool", "g_unmatched_available": "bool",
+                      "_collecting": "bool", "_unmatched": "list[int]", "g_finalize_calls": "int", "g_considered": "list[int]"})
+
+P_NEXT_LINE = "def patch(self):\n    return iter(self.g_records)\n"
+P_CONSIDER = ("def patch(self, line):\n    self.g_considered.append(line.g_idx)\n    if line.g_stops:\n        self.stopped = True\n    return line.g_verdict\n")
+P_LIMIT = "def patch(self, line):\n    return line\n"
+P_FINALIZE = "def patch(self):\n    self.g_finalize_calls += 1\n    self._freeze_path = True\n"
+P_WILL_RUN = "patch = property(lambda self: self.g_will_run)\n"
+P_UNM_AVAIL = "patch = property(lambda self: self.g_unmatched_available)\n"
+
+NEXT_MACROS = dict(MACROS)
+NEXT_MACROS.update({
+    "R": ([], "self.g_records"),
+    "nostop_before": (["j"], "forall_int(0, j, lambda k: not self.g_records[k].g_stops)"),
+})
+
+
+def next_interfaces():
+    cs = []
+    cs.append(Contract(
+        target=f"{CP}::CsvPath._next_line", interface=True, types={}, ensures={}, returns="expr:self.g_records", class_fields=CF,
+        assumptions=["CsvPath._next_line() yields the records of the file in file order (csv.reader; C06), calling track_line for each; "
+                     "Python's generator protocol: code after a yield runs only when the generator is advanced"]))
+    cs.append(Contract(
+        target=f"{CP}::CsvPath._consider_line", interface=True, variant="as_seen_by_next", types={},
+        modifies=["self.stopped", "self.g_considered"],
+        ensures={"verdict": "result == line.g_verdict", "stop": "self.stopped == (old(self.stopped) or line.g_stops)",
+                 "logged": "self.g_considered == old(self.g_considered) + [line]"},
+        returns="bool", class_fields=CF, native={"callee_default": True},
+        assumptions=["_consider_line(line) returns the line's verdict and may stop the run (own contract below)"]))
+    cs.append(Contract(
+        target=f"{CP}::CsvPath.limit_collection", interface=True, variant="identity", types={},
+        requires=[], ensures={}, returns="expr:line", class_fields=CF, native={"callee_default": True},
+        assumptions=["no collect() projection is active (limit_collection is the identity; its own contract covers the projection)"]))
+    cs.append(Contract(
+        target=f"{CP}::CsvPath.finalize", interface=True, types={}, modifies=["self.g_finalize_calls", "self._freeze_path"],
+        ensures={"counted": "self.g_finalize_calls == old(self.g_finalize_calls) + 1", "frozen": "self._freeze_path == True"},
+        returns="none", class_fields=CF))
+    cs.append(Contract(target=f"{CP}::CsvPath.will_run", interface=True, types={}, ensures={"flag": "result == self.g_will_run"},
+                       returns="bool", class_fields=CF, assumptions=["run-mode is read as an abstract flag (mode getters are under contract in C15)"]))
+    cs.append(Contract(target=f"{CP}::CsvPath.unmatched_available", interface=True, types={},
+                       ensures={"flag": "result == self.g_unmatched_available"}, returns="bool", class_fields=CF,
+                       assumptions=["unmatched-mode is read as an abstract flag (C15)"]))
+    return cs
+
+
+def csvpath_next():
+    n = "len(self.g_records)"
+    return Contract(
+        target=f"{CP}::CsvPath.next",
+        types={"csvpath": "none", "self.scanner": "obj:Scanner", "self.scanner.filename": "str", "self._unmatched": "list[int]",
+               "self._line_monitor": "obj:LineMonitor"},
+        requires=["not self.stopped", "len(self.g_yielded) == 0", "len(self._unmatched) == 0", "len(self.g_considered) == 0",
+                  "self._line_monitor._physical_end_line_count is not None and self._line_monitor._physical_end_line_count > 0",
+                  "forall_int(0, %s, lambda k: self.g_records[k].g_len > 0 or not self.g_records[k].g_verdict)" % n],
+        modifies=["self.g_yielded", "self._unmatched", "self.stopped", "self.g_finalize_calls", "self._freeze_path", "self.total_iteration_time",
+                  "self.g_considered"],
+        yield_to="self.g_yielded",
+        ensures={
+            "yields_exactly_the_accepted_lines": "forall_int(0, %s, lambda j: (j in self.g_yielded) == "
+                                                 "(self.g_will_run and self.g_records[j].g_verdict and nostop_before(j)))" % n,
+            "once_in_file_order": "strictly_increasing(self.g_yielded)",
+            "nothing_else_yielded": "forall_int(lambda x: implies(x in self.g_yielded, 0 <= x and x < %s))" % n,
+            "no_record_after_the_stopping_one": "forall_int(lambda x: implies(x in self.g_considered, nostop_before(x)))",
+            "considers_every_record_until_stop": "forall_int(0, %s, lambda j: (j in self.g_considered) == (self.g_will_run and nostop_before(j)))" % n,
+            "unmatched_is_the_complement": "implies(self._collecting and self.g_unmatched_available, forall_int(0, %s, lambda j: "
+                                           "(j in self._unmatched) == (self.g_will_run and not self.g_records[j].g_verdict and nostop_before(j))))" % n,
+            "unmatched_in_file_order": "strictly_increasing(self._unmatched)",
+            "no_run_reads_nothing": "implies(not self.g_will_run, len(self.g_considered) == 0 and len(self.g_yielded) == 0)",
+            "finalizes": "self.g_finalize_calls == old(self.g_finalize_calls) + 1",
+        },
+        invariants={0: [
+            "forall_int(0, _i0, lambda k: not self.g_records[k].g_stops)",
+            "not self.stopped",
+            "forall_int(0, %s, lambda j: (j in self.g_yielded) == (j < _i0 and self.g_records[j].g_verdict))" % n,
+            "forall_int(0, %s, lambda j: (j in self.g_considered) == (j < _i0))" % n,
+            "implies(self._collecting and self.g_unmatched_available, forall_int(0, %s, lambda j: (j in self._unmatched) == (j < _i0 and not self.g_records[j].g_verdict)))" % n,
+            "strictly_increasing(self.g_yielded)", "strictly_increasing(self._unmatched)",
+            "forall_int(lambda x: implies(x in self.g_yielded, 0 <= x and x < _i0))",
+            "forall_int(lambda x: implies(x in self._unmatched, 0 <= x and x < _i0))",
+            "forall_int(lambda x: implies(x in self.g_considered, 0 <= x and x < _i0))",
+            "self.g_finalize_calls == old(self.g_finalize_calls)", "self.g_will_run",
+            "implies(not (self._collecting and self.g_unmatched_available), len(self._unmatched) == 0)",
+        ]},
+        loop_havoc={0: ["self.g_yielded", "self._unmatched", "self.stopped", "self.g_considered"]},
+        covers={"stops_midfile": "self.stopped and len(self.g_considered) < %s" % n, "yielded_two": "len(self.g_yielded) == 2",
+                "kept_unmatched": "len(self._unmatched) == 1 and len(self.g_yielded) == 1"},
+        inline=["CsvPath.unmatched", "CsvPath.unmatched.setter", "CsvPath.collecting", "CsvPath.line_monitor"],
+        macros=NEXT_MACROS, class_fields=CF, returns="none",
+        native={"patches": {"csvpath.csvpath.CsvPath._next_line": P_NEXT_LINE, "csvpath.csvpath.CsvPath._consider_line": P_CONSIDER,
+                            "csvpath.csvpath.CsvPath.limit_collection": P_LIMIT, "csvpath.csvpath.CsvPath.finalize": P_FINALIZE,
+                            "csvpath.csvpath.CsvPath.will_run": P_WILL_RUN, "csvpath.csvpath.CsvPath.unmatched_available": P_UNM_AVAIL},
+                "record_list": "self.g_records", "record_lists": ["self._unmatched"],
+                "defaults": {"LineMonitor": {"_physical_end_line_count": 1, "_physical_line_number": 0}}},
+        property_clauses={"yields_exactly_the_accepted_lines": "C01,C13,C15", "once_in_file_order": "C01", "nothing_else_yielded": "C01",
+                          "no_record_after_the_stopping_one": "C13", "considers_every_record_until_stop": "C01,C02",
+                          "unmatched_is_the_complement": "C15", "unmatched_in_file_order": "C15", "no_run_reads_nothing": "C15", "finalizes": "C07"},
+        doc={"yields_exactly_the_accepted_lines": "C01: 'next()/collect() return exactly those scanned lines on which the match components ... hold'",
+             "once_in_file_order": "C01: 'Each such line is returned once, in file order'",
+             "no_record_after_the_stopping_one": "C13: 'When stop() fires ... no later line is evaluated'",
+             "unmatched_is_the_complement": "C15: 'the collected lines and the unmatched lines together are exactly the records read, each once'",
+             "no_run_reads_nothing": "C15: 'run-mode no-run reads nothing and returns nothing'"},
+        assumptions=["records with a True verdict are non-empty (blank records never get a True verdict: _consider_line contract)"],
+    )
+
+
 def contracts():
-    return [matcher_matches()] + interface_contracts()
+    return [matcher_matches(), csvpath_next()] + interface_contracts() + next_interfaces()
